@@ -403,7 +403,17 @@ fn judge_reads(
                 }
             }
             if tr.delivered < data.len() && !scripted_terminal {
-                if got.is_ok() {
+                // The reader would have delivered the whole string; the caller
+                // stopped asking.  Judged by the result only: a hash that is not
+                // the hash of the string the reader delivers.  (On tiny inputs a
+                // prefix can have the same hash: then the statement holds here.)
+                let coincides = match (got, reference(data)) {
+                    (Ok(a), Some(Ok(b))) => a.full_eq(&b),
+                    _ => false,
+                };
+                if coincides {
+                    cx.probe("io.stopped_early_same_hash");
+                } else if got.is_ok() {
                     cx.fail(
                         "C18.short_reads_ok",
                         format!("{}:stopped_early", what),
